@@ -20,10 +20,13 @@ import (
 	"hash/fnv"
 	"math/rand/v2"
 	"os"
+	"regexp"
+	"runtime"
 	"sort"
 	"strconv"
 	"strings"
 	"sync"
+	"time"
 )
 
 const maxFingerprints = 400000
@@ -48,6 +51,7 @@ type Log struct {
 	only        string
 	resumeAfter string
 	resumed     bool
+	cur         string // the case that is open (for lockWatch)
 }
 
 // Open creates the log for one shard of one property from the environment:
@@ -85,7 +89,54 @@ func Open(prop string) *Log {
 	}
 	l.f = f
 	l.w = bufio.NewWriterSize(f, 1<<16)
+	go l.lockWatch()
 	return l
+}
+
+// lockWatch runs outside every synctest bubble.  Inside a bubble a goroutine that waits for a sync.Mutex
+// is not durably blocked: if the lock is never released (a lock-order deadlock in the code under test)
+// virtual time stops and the whole bubble hangs until the runner's wall-clock watchdog.  Mutexes in the
+// code under test are held for microseconds; a goroutine of a bubble that the runtime reports as waiting
+// for a lock for minutes of real time is therefore reported as a violation of the case that is open, with
+// its stack, and the process is left (the runner resumes behind that case).
+func (l *Log) lockWatch() {
+	re := regexp.MustCompile(`(?m)^goroutine \d+ \[(sync\.(RW)?Mutex\.R?Lock), (\d+) minutes, synctest bubble \d+\]:$`)
+	for {
+		time.Sleep(10 * time.Second)
+		buf := make([]byte, 4<<20)
+		buf = buf[:runtime.Stack(buf, true)]
+		var stuck []string
+		for _, g := range strings.Split(string(buf), "\n\n") {
+			if m := re.FindStringSubmatch(g); m != nil {
+				if n, _ := strconv.Atoi(m[3]); n >= 2 {
+					stuck = append(stuck, g)
+				}
+			}
+		}
+		if len(stuck) == 0 {
+			continue
+		}
+		// the first function of the code under test on the stack of the first waiter names the signature
+		fn := "unknown"
+		for _, line := range strings.Split(stuck[0], "\n") {
+			if strings.HasPrefix(line, "github.com/refraction-networking/uquic") && !strings.Contains(line, "/internal/verif") {
+				fn = line
+				if i := strings.LastIndex(fn, "("); i > 0 {
+					fn = fn[:i]
+				}
+				fn = strings.TrimPrefix(fn, "github.com/refraction-networking/")
+				break
+			}
+		}
+		l.mu.Lock()
+		id := l.cur
+		l.viols++
+		l.line(map[string]any{"t": "viol", "case": id, "sig": l.Prop + "|deadlock|goroutine-waits-for-a-lock-for-minutes|" + fn,
+			"detail": fmt.Sprintf("%d goroutine(s) of the case's bubble have been waiting for a mutex for two minutes of real time or more (everything else in the bubble is blocked): a lock that is never released", len(stuck)),
+			"trace":  map[string]any{"waiters": stuck}})
+		l.mu.Unlock()
+		os.Exit(3)
+	}
 }
 
 func (l *Log) Tier() string      { return l.tier }
@@ -145,6 +196,7 @@ func (l *Log) Begin(id string, inputs any) *Case {
 		return nil
 	}
 	l.line(map[string]any{"t": "begin", "case": id, "in": inputs})
+	l.cur = id
 	return &Case{l: l, ID: id}
 }
 
